@@ -55,6 +55,17 @@ TraceNext ==
          THEN /\ Judge(e.s.vol.data = e.a.data /\ e.s.std = e.s.vol, "init", [data |-> e.a.data])
               /\ st' = [cls |-> Cls(e.a.kind), data |-> e.s.vol.data, pos |-> e.s.vol.pos, ops |-> 0]
               /\ last' = [op |-> "init", a |-> e.a, r |-> [k |-> "ok"]]
+         ELSE IF e.op = "full_sock"
+         THEN \* a descriptor that takes less than it is offered: the count reported is what the kernel took (nothing lost,
+              \* nothing claimed that was not delivered); the exact form succeeds precisely when everything was delivered,
+              \* as std's write_all does on a twin socket
+              /\ Judge(/\ e.r.prefix
+                       /\ (e.r.vol.k = "ok" /\ ~e.a.exact) => e.r.vol.n = e.r.delivered
+                       /\ (e.r.vol.k = "ok" /\ e.a.exact) => e.r.delivered = e.a.len
+                       /\ (e.a.exact /\ e.r.delivered < e.a.len) => e.r.vol.k = "err",
+                       "vol", [delivered |-> e.r.delivered])
+              /\ Judge(e.r.vol.k = e.r.std.k /\ (e.r.vol.k = "err" => e.r.vol.io = e.r.std.io), "twin", [std |-> e.r.std])
+              /\ UNCHANGED <<st, last>>
          ELSE LET x == Apply(st, e.op, e.a) IN
               /\ Judge(Matches(e.r.vol, e.s.vol, x), "vol", [res |-> x.r, data |-> x.st.data, pos |-> x.st.pos])
               /\ Judge(Twin(e), "twin", [std |-> e.r.std, stdstate |-> e.s.std])
